@@ -91,7 +91,8 @@ void applyH(const json &in, json &out) {
   out["fs"] = fs.proj();
   withOrder(ja.at("o").get<size_t>(), [&](auto O) {
     constexpr size_t o = decltype(O)::value;
-    if constexpr (o <= 3) {
+    // E::hi: the expression also occurs with operands of order 7 .. 24 (tag "hi")
+    if constexpr (o <= 3 || (E::hi && o >= 7 && o <= 24)) {
       const auto ap = opSpline<T, o>(ja, g);
       auto &a = operandRef(ap);
       out["a"] = projSpline(a);
@@ -102,7 +103,7 @@ void applyH(const json &in, json &out) {
         const auto ep = cached<ExprT>("E" + ekey, [&] { return new ExprT(E::template make<T>(fs)); });
         out["app_v"] = projSpline((*ep) * a);
       });
-      guarded(out, "lf", [&] {
+      if constexpr (o <= 3) guarded(out, "lf", [&] {   // (the exact value of a form on an order-24 spline does not fit TLC's integers)
         using FormT = decltype(bspline::integration::LinearForm{E::template make<T>(fs)});
         const auto lp = cached<FormT>("L" + ekey, [&] { return new FormT(E::template make<T>(fs)); });
         out["lf_v"] = Codec<T>::enc((*lp)(a));
